@@ -112,7 +112,7 @@ func accessPath(v ssa.Value) string {
 // of such a map, in a function that also builds comparisons, must use an
 // individual of the side the map stands for; the side of a map is the side used
 // by its Store sites.
-func sentSides(p *load.Prog, r *oblig.Run, rule string, region map[*ssa.Function]bool) {
+func sentSides(p *load.Prog, r *oblig.Run, rule, ruleE string, region map[*ssa.Function]bool) {
 	cmpT := p.ByPath[load.PkgRoot].Types.Scope().Lookup("IndividualComparison")
 	optT := p.ByPath[load.PkgRoot].Types.Scope().Lookup("IndividualNodesCompareOptions")
 	if cmpT == nil || optT == nil {
@@ -222,6 +222,43 @@ func sentSides(p *load.Prog, r *oblig.Run, rule string, region map[*ssa.Function
 			mapSide[s.field] = "mixed"
 		} else if !ok {
 			mapSide[s.field] = s.side
+		}
+	}
+	// R11.e: a function that tests one already-sent map before it sends and then marks both, tests both
+	// (check-then-act must cover every map it acts on)
+	type fnMaps struct{ loads, stores map[string]bool }
+	per := map[*ssa.Function]*fnMaps{}
+	var order []*ssa.Function
+	for _, s := range sites {
+		fm := per[s.fn]
+		if fm == nil {
+			fm = &fnMaps{map[string]bool{}, map[string]bool{}}
+			per[s.fn] = fm
+			order = append(order, s.fn)
+		}
+		if s.op == "Load" {
+			fm.loads[s.field] = true
+		} else {
+			fm.stores[s.field] = true
+		}
+	}
+	for _, fn := range order {
+		fm := per[fn]
+		if len(fm.loads) == 0 || len(fm.stores) == 0 {
+			continue // marks without testing (first stage) or tests without marking (last stage)
+		}
+		ob := r.Add(ruleE, "already-sent tests in "+load.FuncName(fn), p.Pos(fn.Pos()), "check-then-act on the already-sent maps")
+		var missing []string
+		for f := range fm.stores {
+			if !fm.loads[f] {
+				missing = append(missing, "options."+f)
+			}
+		}
+		sort.Strings(missing)
+		if len(missing) > 0 {
+			ob.Fail("the function tests an already-sent map before it sends a comparison and marks " + strings.Join(missing, ", ") + " afterwards, but never tests " + strings.Join(missing, ", ") + ": an individual of that side that was already handed out is handed out again (merged into two results)")
+		} else {
+			ob.OK("every map it marks is tested first")
 		}
 	}
 	ord := map[string]int{}
